@@ -704,9 +704,101 @@ func hugeHintedFill(r *ev.Run, id string) {
 	}
 }
 
+// farHints: pools of 2^25..2^27 blocks (thorough 2^29) and IPv4 ranges of 2^25 addresses; hints
+// naming free blocks far into the pool (last block, just past 2^24 + 2^16, past 2^25, ...), on a
+// fresh allocator and after a few un-hinted allocations: each must be honoured exactly, the
+// next un-hinted allocation must still be the first free block, and the far block can be
+// freed exactly once.
+func farHints(r *ev.Run, id string) {
+	pools := []Pool{{CIDR: "2001:db8::/38", Page: 64}, {CIDR: "2001:db8::/29", Page: 56}, {CIDR: "2001:db8::/39", Page: 64}, {V4: true, Start: "10.0.0.0", End: "11.255.255.255"}}
+	if !r.Quick() {
+		pools = append(pools, Pool{CIDR: "2001:db8::/35", Page: 64}, Pool{V4: true, Start: "10.0.0.0", End: "17.255.255.255"})
+	}
+	for _, p := range pools {
+		g := newGeom(p)
+		fam := "ipv6"
+		if p.V4 {
+			fam = "ipv4"
+		}
+		viol := func(prop, sig, what string, sc interface{}) {
+			if prop == id {
+				r.Violate(prop+"/"+fam+"/"+sig, fmt.Sprintf("pool %v (%d blocks): %s", p, g.n, what), map[string]interface{}{"pool": p, "scenario": sc})
+			}
+		}
+		net4 := func(i int64) net.IPNet {
+			ip := g.ipBytes(g.blockBase(i))
+			if p.V4 {
+				return net.IPNet{IP: ip, Mask: net.CIDRMask(32, 32)}
+			}
+			return net.IPNet{IP: ip, Mask: net.CIDRMask(p.Page, 128)}
+		}
+		var far []int64
+		for _, c := range []int64{g.n - 1, 1<<24 + 1<<16, 1<<24 + 1<<16 + 1, 1<<24 - 1, 1 << 24, 1<<25 - 1, 1<<25 + 12345, 1<<26 + 7, g.n / 2, 1 << 16, 1<<16 + 1, 1 << 20} {
+			if c >= 0 && c < g.n {
+				far = append(far, c)
+			}
+		}
+		for _, pre := range []int{0, 3} {
+			for _, f := range far {
+				sc := fmt.Sprintf("%d un-hinted allocations, then a hint naming free block %d", pre, f)
+				end := reg.OpBegin(fmt.Sprintf("pool %v: %s", p, sc))
+				a := newAlloc(p)
+				ok := true
+				for i := 0; i < pre; i++ {
+					if _, err := a.Allocate(net.IPNet{}); err != nil {
+						ok = false
+					}
+				}
+				if f < int64(pre) {
+					end()
+					continue
+				}
+				got, err := a.Allocate(net4(f))
+				blk := int64(-1)
+				if err == nil {
+					blk = g.blockOf(new(big.Int).SetBytes(got.IP))
+				}
+				if ok && (err != nil || blk != f) {
+					viol("C07", "hint-not-honoured/far", fmt.Sprintf("%s: returned %v (block %d), %v", sc, got, blk, err), sc)
+					if err != nil || blk < 0 {
+						viol("C05", "far-hint-fails-or-leaves-pool", fmt.Sprintf("%s: returned %v (block %d), %v although the pool is almost empty", sc, got, blk, err), sc)
+					}
+					end()
+					r.Eval("far-hint/wrong")
+					continue
+				}
+				// the next un-hinted allocation is the first free block, not the far one again
+				n2, err2 := a.Allocate(net.IPNet{})
+				b2 := int64(-1)
+				if err2 == nil {
+					b2 = g.blockOf(new(big.Int).SetBytes(n2.IP))
+				}
+				if err2 != nil || b2 == f || b2 < 0 {
+					viol("C04", "double-allocation/far", fmt.Sprintf("%s, then an un-hinted allocation returned %v (block %d), %v", sc, n2, b2, err2), sc)
+				}
+				if err2 != nil || b2 < 0 {
+					viol("C05", "alloc-after-far-hint", fmt.Sprintf("%s, then an un-hinted allocation returned %v (block %d), %v although the pool is almost empty", sc, n2, b2, err2), sc)
+				}
+				// the same hint again must not return the same block
+				if n3, err3 := a.Allocate(net4(f)); err3 == nil && g.blockOf(new(big.Int).SetBytes(n3.IP)) == f {
+					viol("C04", "double-allocation/far", fmt.Sprintf("%s: the outstanding block was returned again for the same hint", sc), sc)
+				}
+				e1 := a.Free(net4(f))
+				e2 := a.Free(net4(f))
+				if e1 != nil || e2 == nil {
+					viol("C06", "free-far-block", fmt.Sprintf("%s: first Free returned %v, second %v", sc, e1, e2), sc)
+				}
+				end()
+				r.Eval("far-hint/honoured")
+			}
+		}
+	}
+}
+
 // sweeps: linear fills of many pool geometries (C05), hint family at word boundaries (C07).
 func sweeps(r *ev.Run, id string) {
 	hugeHintedFill(r, id)
+	farHints(r, id)
 	bigFill(r, id, Pool{CIDR: "2001:db8::/47", Page: 64})                 // 2^17 blocks
 	bigFill(r, id, Pool{V4: true, Start: "10.0.0.0", End: "10.1.17.111"}) // 70 000 addresses
 	thorough := !r.Quick()
